@@ -243,3 +243,23 @@ def tableOk (claims prefer : List (Nat × Nat)) (n : Nat) : Bool :=
   (List.range 256).all fun code => okClaimants prefer (proposalsFor claims (List.range n) code)
 
 end A2Verif.Model.Determinism
+
+/-! ## century of a ProDOS date stamp (`fs/prodos/pack.rs` `unpack_time`)
+
+ProDOS stores the year modulo 100.  `centuryPinned` is the code at the pinned commit: the century is chosen from the
+stored value alone.  `centurySliding today` is the "not after today" refinement (seeded change C20-6): the decoded year
+of an EXISTING stamp then depends on the clock (and time zone) of the machine that reads it. -/
+namespace A2Verif.Model.Determinism
+
+/-- a calendar date as (year, month, day); lexicographic order -/
+def dateLe (a b : Nat × Nat × Nat) : Bool :=
+  decide (a.1 < b.1) || (a.1 == b.1 && (decide (a.2.1 < b.2.1) || (a.2.1 == b.2.1 && decide (a.2.2 ≤ b.2.2))))
+
+/-- `let year = match yearmod100 < 79 { true => 2000 + yearmod100, false => 1900 + yearmod100 }` -/
+def centuryPinned (yy : Nat) : Nat := if yy < 79 then 2000 + yy else 1900 + yy
+
+/-- "only go to the 21st century if that does not put us ahead of the clock" -/
+def centurySliding (today : Nat × Nat × Nat) (yy mm dd : Nat) : Nat :=
+  if yy < 79 && dateLe (2000 + yy, mm, dd) today then 2000 + yy else 1900 + yy
+
+end A2Verif.Model.Determinism
